@@ -39,7 +39,7 @@ def cases(tier, seed):
     else:
         out.append(dict(kind="enumerate_small", seed=seed))
     # end to end: real group members, the same leader assigning twice with a partition added in between
-    for i in range({"quick": 24, "thorough": 600}[tier]):
+    for i in range({"quick": 60, "thorough": 900}[tier]):
         out.append(dict(kind="e2e", seed=seed * 1000003 + 1500000 + i, profile="grow" if i % 3 else "rebalance"))
     # ... and faults on the leader's partition lookup
     from . import c17
